@@ -411,8 +411,11 @@ fn decode(ints: &[i64]) -> Vec<Op> {
     ops
 }
 
+/// canonical codes, sorted: the order of reads()/writes() means nothing
 fn codes(ids: &[ResourceId]) -> Vec<i64> {
-    ids.iter().map(res_code).collect()
+    let mut v: Vec<i64> = ids.iter().map(res_code).collect();
+    v.sort();
+    v
 }
 
 fn new_world() -> World {
